@@ -244,6 +244,8 @@ func (w *world) afterWrite(h int, op string) {
 			} else {
 				w.hit("btree:Clone:write-visible-in-other-tree", fmt.Sprintf("after %s on handle %d, handle %d changed: tree=%s expected=%s", op, h, j, showKVs(got), showKVs(w.refs[j].items)))
 			}
+			// resynchronise, so that later operations are judged on their own and not on this divergence
+			w.refs[j].items = append([]kv(nil), got...)
 		}
 	}
 	t := w.trees[h]
@@ -260,6 +262,7 @@ func (w *world) afterWrapperWrite(op string, r *ref) {
 	got := allItems(in)
 	if !eqKVs(got, r.items) {
 		w.hit("tree:"+op+":contents-differ-from-sorted-set", fmt.Sprintf("after %s: tree=%s sorted-set=%s", op, showKVs(got), showKVs(r.items)))
+		r.items = append([]kv(nil), got...)
 	}
 	if in.Len() != len(r.items) {
 		w.hit("tree:Len:differs-from-item-count", fmt.Sprintf("after %s: Len()=%d, %d items", op, in.Len(), len(r.items)))
@@ -455,6 +458,11 @@ func (w *world) line(line string) string {
 			return "bad"
 		}
 		return "ok"
+	case f[0] == "owned" && len(f) == 2:
+		o, tot := t.VerifOwned()
+		return fmt.Sprintf("owned=%d total=%d", o, tot)
+	case f[0] == "cons" && len(f) == 2:
+		return "ok"
 	case f[0] == "clone" && len(f) == 2:
 		if len(w.trees) >= 8 {
 			return "bad-op"
@@ -605,7 +613,9 @@ func (w *world) wrapperLine(f []string) string {
 					want = append(want, x)
 				}
 			}
-			if !eqKVs(got, want) {
+			if len(got) > n {
+				w.hit("tree:iterWalk:limit-exceeded", fmt.Sprintf("%s pivot=%d filter=%s n=%d returned %d items: %s", f[1], p, f[3], n, len(got), showKVs(got)))
+			} else if !eqKVs(got, want) {
 				w.hit("tree:iterWalk:"+f[1]+":wrong-items", fmt.Sprintf("%s pivot=%d filter=%s n=%d on %s returned %s, the first n matching items are %s",
 					f[1], p, f[3], n, showKVs(r.items), showKVs(got), showKVs(want)))
 			}
